@@ -180,13 +180,13 @@ Proof. exact (ProofsWrap.passthrough_wrap_document vp x y k l1 run l2 s). Qed.
 Print Assumptions passthrough_wrap_document.
 
 Example passthrough_wrap_document_example :
-  let base := Px (0, 0, 2, 1)%Z [[51; 204]%Z] [255; 128]%Z (MkAttrs true 255 255 BMultiply false None false) in
-  let clipl := Px (1, 0, 3, 1)%Z [[10; 20]%Z] [64; 255]%Z (MkAttrs true 128 64 BScreen true None false) in
+  let base := Px (0, 0, 2, 1)%Z [[51; 204]%Z] [255; 128]%Z (MkAttrs true 255 255 BMultiply false None false 255) in
+  let clipl := Px (1, 0, 3, 1)%Z [[10; 20]%Z] [64; 255]%Z (MkAttrs true 128 64 BScreen true None false 255) in
   starts_with_base [base; clipl] /\ next_not_clipping [base] /\
   Forall (fun L => at_ko (attrs_of L) = false) [base; clipl] /\ Forall layer_ok [base; clipl].
 Proof.
   repeat split; try reflexivity; repeat constructor;
-    unfold is_byte, attrs_ok, bytes_ok; cbn; repeat constructor; unfold is_byte; try Lia.lia.
+    unfold is_byte, attrs_ok, vals_ok; cbn; repeat constructor; unfold is_byte; try Lia.lia.
 Qed.
 
 (* wrapping at ANY depth and in several places at once: [wrapped l' l] = l' is l with ranges of whole clipping
@@ -199,9 +199,9 @@ Proof. exact (ProofsWrapDoc.passthrough_wrap_anywhere l' l vp cb ab x y k). Qed.
 Print Assumptions passthrough_wrap_anywhere.
 
 Example wrapped_example :
-  let at0 := MkAttrs true 200 255 BMultiply false None false in
+  let at0 := MkAttrs true 200 255 BMultiply false None false 255 in
   let base := Px (0, 0, 2, 1)%Z [[51; 204]%Z] [255; 128]%Z at0 in
-  let clipl := Px (1, 0, 3, 1)%Z [[10; 20]%Z] [64; 255]%Z (MkAttrs true 128 64 BScreen true None false) in
+  let clipl := Px (1, 0, 3, 1)%Z [[10; 20]%Z] [64; 255]%Z (MkAttrs true 128 64 BScreen true None false 255) in
   let top := Px (0, 0, 1, 1)%Z [[7]%Z] [99]%Z at0 in
   (* inside an isolated group, the run [base; clipl] is wrapped; at the top level [group; top] is wrapped too *)
   wrapped [Gr true [Gr false [Gr true [base; clipl] wrap_attrs; top] at0; top] wrap_attrs]
@@ -253,11 +253,11 @@ Print Assumptions null_if_opacity0.
 (* a transparent CLIPPING layer inserted into the clipping run of a layer inside a group, and an opacity-0
    group on top of the document *)
 Example ins_example :
-  let at0 := MkAttrs true 255 255 BNormal false None false in
+  let at0 := MkAttrs true 255 255 BNormal false None false 255 in
   let base := Px (0, 0, 2, 1)%Z [[51; 204]%Z] [255; 128]%Z at0 in
-  let clipl := Px (1, 0, 3, 1)%Z [[10; 20]%Z] [64; 255]%Z (MkAttrs true 128 64 BScreen true None false) in
-  let transparent := Px (0, 0, 2, 1)%Z [[9; 9]%Z] [0; 0]%Z (MkAttrs true 255 255 BMultiply true None false) in
-  let ghost := Gr false [base] (MkAttrs true 0 255 BNormal false None false) in
+  let clipl := Px (1, 0, 3, 1)%Z [[10; 20]%Z] [64; 255]%Z (MkAttrs true 128 64 BScreen true None false 255) in
+  let transparent := Px (0, 0, 2, 1)%Z [[9; 9]%Z] [0; 0]%Z (MkAttrs true 255 255 BMultiply true None false 255) in
+  let ghost := Gr false [base] (MkAttrs true 0 255 BNormal false None false 255) in
   ins false 1 0 0 [Gr true [base; transparent; clipl] at0; ghost] [Gr true [base; clipl] at0].
 Proof.
   cbv zeta. apply ins_group.
